@@ -254,6 +254,11 @@ func envInt(k string, d int64) int64 {
 
 // Main runs check c with the given command-line arguments and exits.
 func Main(c *Check, args []string) {
+	// the code under test may print on stdout (diagnostics of a kernel): keep the verdict lines and the worker
+	// protocol on the real stdout and send everything else to stderr
+	if Stdout == io.Writer(os.Stdout) {
+		os.Stdout = os.Stderr
+	}
 	if c.Sub != nil && c.Sub(args) {
 		os.Exit(0)
 	}
@@ -845,7 +850,7 @@ func replayMain(c *Check, o Opts) int {
 	}
 	self, _ := os.Executable()
 	cmd := exec.Command(self, c.ID, "--tier", body.Tier, "--case", strconv.FormatInt(body.Replay.CaseIndex, 10))
-	cmd.Stdout, cmd.Stderr = os.Stdout, os.Stderr
+	cmd.Stdout, cmd.Stderr = Stdout, os.Stderr
 	if err := cmd.Run(); err != nil {
 		fmt.Fprintf(Stdout, "replay of %s (sig %s): FAILS again (%v)\n", o.Replay, body.Sig, err)
 		return 1
